@@ -112,6 +112,17 @@ class Base:
             return i.rstrip() == " ".join(f[:3]) and f[0] == f[2]
         wpart = {"name": "printed-words", "harness": "rword", "driver": "rword", "cases": wcases, "compare": wcmp,
                  "nontrivial": lambda c: True, "distribution": {"texts": len(wcases)}}
+        # the same with simple parameter expansions ($name, $1, $@ ...; Lex/Reprint2.v, the rune-level scanner model of the theorem
+        # C05_printed_word_with_parameters_is_scanned_back)
+        w2alpha = ["a", "'", '"', "\\", "\n", " ", "$", "x", "1", "@", "_", "\u00e9", "#", ";", "*", "`", "\\\n", "{", "-", "$x", "$1", "$#", "$?"]
+        w2 = ["".join(t) for k_ in range(1, 5) for t in itertools.product(["a", "'", '"', "\\", "$", "1", "\n", " "], repeat=k_) if t[0] not in (" ", "\n")]
+        for _ in range(6000 if tier == "quick" else 100000):
+            t = "".join(wrnd.choice(w2alpha) for _ in range(wrnd.randint(1, 12)))
+            if t[0] not in " \n":
+                w2.append(t)
+        w2cases = ["%s\tword-text" % hx(t) for t in dict.fromkeys(w2)]
+        w2part = {"name": "printed-words-with-parameters", "harness": "rword", "driver": "rword2", "cases": w2cases, "compare": wcmp,
+                  "nontrivial": lambda c: True, "distribution": {"texts": len(w2cases)}}
         # the printer's notation for parameter expansions (print_pexp, the model in which F64 is a theorem): nodes built from every
         # combination of braces, names (ordinary, positional, special), operators (none, the fourteen, the length form) and words
         names = ["x", "10", "#", "?", "-", "@", "*", "0", "_a1", "\u00e9"]
@@ -120,7 +131,7 @@ class Base:
                   for w_ in ("-", "", hx("w"), hx("a b"), hx("*.c"), hx("}"))]
         ppart = {"name": "parameter-notation", "harness": "pexp", "driver": "pexp", "cases": pcases,
                  "nontrivial": lambda c: True, "distribution": {"nodes": len(pcases)}}
-        return ([hpart] if hpart else []) + [wpart, ppart] + [{"name": "programs-x-configs", "harness": "rt", "driver": None, "cases": cases, "impl_ok": impl_ok, "chunk": 40,
+        return ([hpart] if hpart else []) + [wpart, w2part, ppart] + [{"name": "programs-x-configs", "harness": "rt", "driver": None, "cases": cases, "impl_ok": impl_ok, "chunk": 40,
                  "nontrivial": lambda c: len(c.split("\t")[0]) > 8,
                  "distribution": {"programs": len(progs), "all_256_configs_on": sum(1 for c in cases if "\tall\t" in c), "pairwise_16_on": sum(1 for c in cases if "\tall\t" not in c)}}]
 
@@ -146,7 +157,7 @@ class Base:
 
     def shrink(self, u, C):
         f = u["case"].split("\t")
-        if u.get("part") == "printed-words":
+        if u.get("part") in ("printed-words", "printed-words-with-parameters", "parameter-notation"):
             return u
         k0 = kind(u["impl"])
 
@@ -159,9 +170,9 @@ class Base:
 
     def replay(self, payload, C):
         c = payload["case"]
-        if payload.get("part") == "printed-words":
+        if payload.get("part") in ("printed-words", "printed-words-with-parameters"):
             i = C.run_harness("rword", [c])[0]
-            m, _ = C.run_driver("rword", [c], [i])[0]
+            m, _ = C.run_driver("rword" if payload.get("part") == "printed-words" else "rword2", [c], [i])[0]
             print("case : the word written as %r\nimpl : %s\nmodel: %s" % (unhx(c.split("\t")[0]).decode("utf-8", "replace"), i, m))
             f = m.split(" ")
             ok = m in ("unmodelled", "noarg") or (i.startswith(("error", "shape")) and int(f[3]) > 1) or (i.rstrip() == " ".join(f[:3]) and f[0] == f[2])
